@@ -21,6 +21,7 @@ TRUSTED_BASE = [
     "Coq 8.16.1 kernel (coqc); vm_compute used for case evaluation and closed witnesses; no native_compute",
     "axioms: none (every property theorem prints 'Closed under the global context')",
     "harness/consts_from_source.py (AST reader that regenerates Generated/Constants.v from /repo)",
+    "harness/pipeline_from_source.py (AST translator: preProcessor.initDefaultFilters -> Generated/Pipelines.v; its output is compared with the real pre-processor objects over all option combinations in C01 / C02)",
     "Python harness: generators, font builders, observers, Gallina term printer (harness/gterm.py)",
     "fontTools/ufoLib2/defcon behaviour is modelled or observed, not verified",
 ]
@@ -53,6 +54,12 @@ def ensure_build():
                 pass
         else:
             consts["error"] = out[-2000:]
+        # ... and the default filter pipelines translated from preProcessor.py (fail-closed: UnknownFilter)
+        rc_p, out_p = sh([PY, os.path.join(VERIF, "harness", "pipeline_from_source.py")], timeout=120)
+        try:
+            consts["pipeline_unrecognised"] = json.loads(out_p.strip().splitlines()[-1])["unrecognised"] if rc_p == 0 else ["<translator crashed> " + out_p[-500:]]
+        except Exception:
+            consts["pipeline_unrecognised"] = ["<translator output unreadable>"]
         mk = os.path.join(COQ, "Makefile")
         cp = os.path.join(COQ, "_CoqProject")
         if not os.path.exists(mk) or os.path.getmtime(mk) < os.path.getmtime(cp):
